@@ -168,6 +168,7 @@ def _pre_apply(self, node):
         "tag": type_tag(ref, node) if can else "-", "text": S.text_of(root), "node_kind": S.kind(node),
         "parent_kind": S.kind(node.parent) if node.parent is not None else "root",
         "node_shadow": S.shadow(node), "hints": list(HINTS), "dup_ids": dup_ids,
+        "bm_source": (root, S.idshadow(root)) if label == "BM" and "structure" in CHECKS else None,
     }
 
 
@@ -214,6 +215,19 @@ def _post_apply(snap, a, k, res, exc):
     changed = after != snap["before"]
     if not changed:
         rec.arm("apply:unchanged-tree")
+    if snap.get("bm_source") is not None and after_root is not snap["bm_source"][0]:
+        # balanced move clones the equation itself and rewrites the clone: the tree of the node it
+        # was GIVEN is the tree the copy was cloned from, and stays exactly as it was (links included)
+        src_root, src_ids = snap["bm_source"]
+        rec.arm("original:bm-source-checked")
+        try:
+            now_ids = S.idshadow(src_root)
+        except RecursionError:
+            now_ids = None
+        if now_ids != src_ids:
+            rec.violation("C07", "original-modified/BM", "the tree the rewritten copy was cloned from was modified",
+                          witness_of(snap, {"after": snap["after_text"], "summary": f"BM on node {snap['index']} of '{snap['text']}': the tree of the node it was given "
+                                            f"(which it clones before rewriting) has different links / parent pointers afterwards"}))
     key_case = (label, tag, snap["before"], snap["index"])
     if "structure" in CHECKS:
         _structure(rec, snap, arm, key_case, changed)
